@@ -170,6 +170,9 @@ def _spikes(rng, n, T, C, polarity):
         amp = rng.uniform(20, 100) * polarity
         main = amp * np.exp(-0.5 * ((t - p) / w) ** 2)
         rebound = -0.35 * amp * np.exp(-0.5 * ((t - p - 3 * w) / (2 * w)) ** 2)
+        if rng.random() < 0.4:
+            # tri-phasic: a lobe of opposite sign before the main deflection, sometimes deeper than the one after it
+            rebound = rebound * rng.uniform(1.5, 2.4) - rng.uniform(0.6, 0.95) * amp * np.exp(-0.5 * ((t - p + 3 * w) / (1.5 * w)) ** 2)
         decay = np.exp(-np.abs(np.arange(C) - rng.integers(0, C)) / 2.0)
         out[i] = (main + rebound)[:, None] * decay[None, :] + rng.normal(0, 0.5, (T, C))
     return out
